@@ -238,6 +238,8 @@ type ArtelaOpts struct {
 	NoRoot        bool // skip IntermediateRoot (keeps the journal intact)
 	JPOverride    *bool // force join points on/off for all invocations
 	NullTracer    bool  // install a do-nothing debug tracer (debug mode without recording)
+	// InnerFor, if set, supplies a fresh real tracer per invocation (Debug must be on).
+	InnerFor func(i int, evm *avm.EVM, inv *Invocation) avm.EVMLogger
 	Ctx           context.Context
 }
 
@@ -337,6 +339,9 @@ func RunArtela(sc *Scenario, opt ArtelaOpts) *ArtelaRun {
 		if opt.BeforeInv != nil {
 			opt.BeforeInv(i, evm, st)
 		}
+		if logger != nil && opt.InnerFor != nil {
+			logger.Inner = opt.InnerFor(i, evm, inv)
+		}
 		rec.add(Ev{K: EvInvBegin, PC: uint64(i)})
 		if logger != nil && !opt.NoTxEvents {
 			logger.CaptureTxStart(inv.Gas)
@@ -421,7 +426,8 @@ type UpOpts struct {
 	NoTxEvents bool
 	// Translate rewrites the code of accounts / init code before execution (C15:
 	// Artela opcode positions -> upstream ones).
-	OnEVM func(evm *uvm.EVM, st *state.StateDB)
+	OnEVM    func(evm *uvm.EVM, st *state.StateDB)
+	InnerFor func(i int, evm *uvm.EVM, inv *Invocation) uvm.EVMLogger
 }
 
 type UpRun struct {
@@ -476,6 +482,9 @@ func RunUpstream(sc *Scenario, opt UpOpts) *UpRun {
 			dest = nil
 		}
 		st.Prepare(rules, inv.Origin, scenCoinbase, dest, uvm.ActivePrecompiles(rules), accessList(inv))
+		if logger != nil && opt.InnerFor != nil {
+			logger.Inner = opt.InnerFor(i, evm, inv)
+		}
 		rec.add(Ev{K: EvInvBegin, PC: uint64(i)})
 		if logger != nil && !opt.NoTxEvents {
 			logger.CaptureTxStart(inv.Gas)
